@@ -24,6 +24,17 @@ def obligations(tier):
     codec("hex-roundtrip", "h_hexroundtrip", ["MAXLEN=%d" % mh], SC + ["hexify#0:%d" % (mh + 1), "unhexify#0:%d" % (2 * mh + 1), "unhexify#1:%d" % (mh + 1)],
           "unhexify(hexify(x)) == x", "len <= %d" % mh)
     codec("endian-16-32-64", "h_endian", [], [], "be/le 16/32/64 enc/dec: defined byte order, mutually inverse both ways, any offset 0..7 in an exact-size object", "full width, offsets 0..7")
+    mj = 8 if T else 6
+    to = 1800 if T else 280
+    for lo, hi in [(0, 4)] + [(k, k) for k in range(5, (12 if T else 10) + 1)]:
+        obs.append(dict(name="json-match-str-semantic-n%d-%d" % (lo, hi), harness="jsem.c", entry="h_match_sem", defs=["NLO=%d" % lo, "MAXN=%d" % hi], unwind=hi + 4, timeout=to,
+                        claim="match_str on every well-formed JSON string body of %d..%d bytes (simple escapes, \\uXXXX, no raw control characters) in an exact-size object: stops just after the closing quote; reports a match iff the decoded name equals the key and no \\u escape occurs" % (lo, hi),
+                        bounds="%d..%d bytes of name text, keys of <= 2 characters (all byte values)" % (lo, hi), stubs=[]))
+    for lo, hi in [(0, 5)] + [(k, k) for k in range(6, mj + 2)]:
+        obs.append(dict(name="json-find-first-match-n%d-%d" % (lo, hi), harness="jsem.c", entry="h_find_sem", defs=["NLO=%d" % lo, "MAXN=%d" % hi], unwind=hi + 4, timeout=to,
+                        replace=["match_str:stub_match", "skip_value:stub_value"], unwindset=["strchr.0:8"],
+                        claim="json_find member loop on every buffer of %d..%d bytes with names and values abstracted (arbitrary extents and match flags): returns the value position (after ':' and white space) of the FIRST member whose name matched; end if the skeleton { \"..\" : v , ... is broken or nothing matches" % (lo, hi),
+                        bounds="%d..%d bytes, <= 3 members" % (lo, hi), stubs=["match_str, skip_value -> contract stubs with pre-drawn answers"]))
     return obs
 
 TRUSTED = ["CBMC 6.11 C semantics and its string.h models (strchr, memcmp)", "cadical SAT solver", "refs/ref_codec.h (RFC 4648 / hex reference written from the RFC text)"]
